@@ -132,6 +132,73 @@ class Blocker:
         return None
 
 
+def traveling_devices(ctx, cfg, shard, sdm, idm):
+    import base64
+    import json
+    import pickle
+    import subprocess
+
+    from vmon import repo as _repo
+    from vmon.sim import devnode
+
+    made = []
+    if shard["sgio"]:
+        node = devnode.new_node("sg77")
+        try:
+            made.append(("SCSIDevice", sdm.SCSIDevice(node, True), node))
+        except Exception:  # noqa: BLE001
+            pass
+    if shard["iscsi"]:
+        try:
+            made.append(("ISCSIDevice", idm.ISCSIDevice("iscsi://192.0.2.9:3260/iqn.2003-01.org.example:t/2", "iqn.2003-01.org.example:travel"), None))
+        except Exception:  # noqa: BLE001
+            pass
+    for name, dev, node in made:
+        blobs = []
+        for proto in range(2, pickle.HIGHEST_PROTOCOL + 1):
+            try:
+                blobs.append((proto, pickle.dumps(dev, proto)))
+            except Exception:  # noqa: BLE001
+                ctx.count("device_objects_that_do_not_pickle")
+        try:
+            dev.close()
+        except Exception:  # noqa: BLE001
+            pass
+        for proto, blob in blobs[:2]:
+            code = (
+                "import sys, json, pickle, base64\n"
+                "sys.path.insert(0, %r)\n"
+                "sys.modules['sgio'] = None; sys.modules['iscsi'] = None\n"
+                "opened = []\n"
+                "def hook(ev, args):\n"
+                "    if ev == 'open' and isinstance(args[0], str) and args[0].startswith('/dev/'): opened.append(args[0])\n"
+                "    if ev.startswith('socket.connect'): opened.append(ev)\n"
+                "sys.addaudithook(hook)\n"
+                "out = {}\n"
+                "try:\n"
+                "    d = pickle.loads(base64.b64decode(%r))\n"
+                "    out['loaded'] = type(d).__name__\n"
+                "except BaseException as e:\n"
+                "    out['raised'] = type(e).__name__\n"
+                "out['opened'] = opened\n"
+                "print(json.dumps(out))\n"
+            ) % (_repo.REPO, base64.b64encode(blob).decode())
+            p = subprocess.run([sys.executable, "-B", "-c", code], stdout=subprocess.PIPE, stderr=subprocess.PIPE, timeout=120)
+            ctx.case((cfg, "traveling-device", name, proto), True)
+            ctx.count("device_objects_sent_to_an_interpreter_without_bindings")
+            try:
+                r = json.loads(p.stdout.decode().strip().splitlines()[-1])
+            except Exception:  # noqa: BLE001
+                ctx.inconclusive_because("the receiving interpreter gave no answer: %s" % p.stderr.decode(errors="replace")[-200:])
+                continue
+            wit = {"configuration": cfg, "device": name, "pickle_protocol": proto, "receiver": r}
+            if r.get("opened"):
+                ctx.fail("C19:neither.traveling_device_opened_without_binding", "a %s pickled where its binding is installed and loaded where it is missing opened %r" % (name, r["opened"]), wit)
+            elif r.get("raised") != "NotImplementedError":
+                ctx.fail("C19:neither.traveling_device_not_refused", "a %s pickled where its binding is installed and loaded where it is missing: %s, not NotImplementedError"
+                         % (name, "came up as a %s" % r["loaded"] if "loaded" in r else "raised %s" % r.get("raised")), wit)
+
+
 def run(shard, ctx):
     import importlib
     import pkgutil
@@ -378,6 +445,26 @@ def run(shard, ctx):
         def close(self):
             return 1
 
+    # an application's device that is a context manager of its own (a bus lock taken for a batch, a pooled session): however the
+    # facade treats it, what it enters it leaves
+    class OwnContext(Plain):
+        entered = 0
+        left = 0
+        closed = 0
+
+        def __enter__(self):
+            type(self).entered += 1
+            self.held = getattr(self, "held", 0) + 1
+            return self
+
+        def __exit__(self, *exc):
+            type(self).left += 1
+            self.held -= 1
+            return False
+
+        def close(self):
+            self.closed += 1
+
     # a device that fails the attach probe (busy, a pending unit attention) is still the caller's: the facade does not close it
     class FailsOnce(Plain):
         closes = 0
@@ -414,7 +501,7 @@ def run(shard, ctx):
             except Exception as e:  # noqa: BLE001
                 ctx.fail("C19:%s.facade_plain_device" % cfg, "the retry of the attach over the same device object raised %s" % e, {"configuration": cfg, "device_object": "FailsOnce"}, exc=e)
 
-    for kind in (Plain, LogList, Unconnected, Sized, EqualsAnything, Slotted, KeywordOnly, Forwarding, ExtraOptions, ClosesTrue, ClosesSelf, ClosesCount):
+    for kind in (Plain, LogList, Unconnected, Sized, EqualsAnything, Slotted, KeywordOnly, Forwarding, ExtraOptions, ClosesTrue, ClosesSelf, ClosesCount, OwnContext):
         for reattach in (False, True):
             wit = {"configuration": cfg, "device_object": kind.__name__, "attached_by": "s(dev)" if reattach else "SCSI(dev)"}
             ctx.case((cfg, "facade-plain", kind.__name__, reattach), True)
@@ -438,12 +525,23 @@ def run(shard, ctx):
                     pass
                 else:
                     ctx.fail("C19:%s.facade_plain_device" % cfg, "facade over a plain device object (%s): an exception raised inside `with SCSI(dev)` did not reach the caller" % kind.__name__, wit)
+                if kind is OwnContext:
+                    ctx.count("own_context_devices")
+                    if getattr(p, "held", 0) != 0:
+                        ctx.fail("C19:%s.facade_left_device_context_entered" % cfg, "a device object that is a context manager of its own was entered %d times more than it was left by two `with SCSI(dev)` blocks"
+                                 % p.held, wit)
                 if p.n != 4 or p.opcodes is not E.sbc or getattr(p, "devicetype", None) != 0:
                     ctx.fail("C19:%s.facade_plain_device" % cfg, "facade over a plain device object (%s): %d commands reached it (1 INQUIRY + 3 expected), command set %r, devicetype %r"
                              % (kind.__name__, p.n, p.opcodes, getattr(p, "devicetype", None)), wit)
                 ctx.count("facade_plain_ok")
             except Exception as e:  # noqa: BLE001
                 ctx.fail("C19:%s.facade_plain_device" % cfg, "facade over a plain device object (%s) raised %s: %s" % (kind.__name__, type(e).__name__, e), wit, exc=e)
+
+    # a device object that travels (pickle: a worker pool, a job queue) from this configuration into an interpreter where the
+    # bindings are missing: if it can be sent at all, it is refused there like any other request for that transport, and no file
+    # is opened for it
+    if shard["sgio"] or shard["iscsi"]:
+        traveling_devices(ctx, cfg, shard, sdm, idm)
 
     # 4./5. device strings
     from pyscsi.utils import init_device
